@@ -3718,15 +3718,14 @@ impl CanonicalizeContext {
 				// this is like the postfix case except we grab the entire mrow, push on the close, and make that the mrow
 				// note:  the code does these operations on the stack for consistency, but it could be optimized without push/popping the stack
 				let mrow = top_of_stack.mrow;
+				let opened_by_left_fence = top_of_stack.op_pair.op.is_left_fence();	// as classified when the row was started (matters for '|')
 				top_of_stack.add_child_to_mrow(current_child, current_op);
 				// debug!("shift_stack: after adding right fence to mrow:\n{}", mml_to_string(&mrow));
 				new_current_op = OperatorPair::new();							// treat matched brackets as operand
 				new_current_child = mrow;	
 				let children = mrow.children();
 				// debug!("looking for left fence: len={}, {:#?}", children.len(), self.find_operator(as_element(children[0]),None, None, Some(as_element(children[1])) ));
-				if parse_stack.is_empty() || (children.len() == 2 && (name(&as_element(children[0])) != "mo" ||
-				   !CanonicalizeContext::find_operator(Some(self), as_element(children[0]),
-								None, Some(as_element(children[0])), Some(mrow) ).is_left_fence())) {
+				if parse_stack.is_empty() || (children.len() == 2 && (name(&as_element(children[0])) != "mo" || !opened_by_left_fence)) {
 					// the mrow did *not* start with an open (hence no push), or nothing is left on the stack to take the fenced mrow
 					// since parser really wants balanced parens to keep stack state right, we do a push here
 					parse_stack.push( StackInfo::new(mrow.document()) );
